@@ -6,6 +6,8 @@ use vstd::arithmetic::div_mod::*;
 use vstd::arithmetic::mul::*;
 verus! {
 
+//@include prelude/std_specs_arith.rs
+
 /*@fragment file=src/subdevice_group/mod.rs impl="impl<const MAX_SUBDEVICES: usize, const MAX_PDI: usize, R: RawRwLock, S, DC> SubDeviceGroup<MAX_SUBDEVICES, MAX_PDI, R, S, DC>" fn=configure_dc_sync from="let start_time = (system_time + first_pulse_delay)" to="* sync0_period;" name=dc_start_time sig="system_time: u64, first_pulse_delay: u64, sync0_period: u64 -> (r: u64)" tail="start_time" props=C18
     requires
         1 <= sync0_period <= u32::MAX,
